@@ -1133,6 +1133,17 @@ func (r *Resolver) answer(ctx context.Context, req, resp *dns.Msg, parentDS []dn
 		}
 	}
 
+	if targetMsg != nil && targetMsg.Rcode == dns.RcodeServerFailure {
+		// The target leg failed. Report that failure with its Extended
+		// DNS Error rather than a bare SERVFAIL rcode spliced onto the
+		// outer DNAME answer.
+		code, text := dns.ExtendedErrorCodeOther, "DNAME target resolution failed"
+		if ede := dnsutil.GetEDE(targetMsg); ede != nil {
+			code, text = ede.InfoCode, ede.ExtraText
+		}
+		return dnsutil.SetRcodeWithEDE(req, dns.RcodeServerFailure, isDO(req), code, text), nil
+	}
+
 	if targetMsg != nil {
 		// Splice the target response into resp *after* DNSSEC check.
 		// The internal recursion already validated the target zone
